@@ -8,7 +8,7 @@ import subprocess
 
 from . import common as c
 
-SUPPORT = ["Ast/Tree.v", "Ast/Search.v", "Ast/SearchProofs.v", "Ast/Linked.v", "Ast/Node.v"]
+SUPPORT = ["Ast/Tree.v", "Ast/Search.v", "Ast/SearchProofs.v", "Ast/Linked.v", "Ast/Node.v", "Ast/PathRefine.v"]
 
 CLAIM = {
     "gens": ["AstConsts"],
